@@ -369,6 +369,7 @@ func (a *NodeActor) handleJoinRequest(ctx vivid.ActorContext, m *JoinRequest) {
 	}
 	accepted := m.NodeState.Clone()
 	accepted.Status = MemberStatusUp
+	accepted.LastSeen = time.Now().UnixNano() // 以收到请求的时刻为准，而非对方创建节点状态时自报的时间
 	a.clusterView.AddMember(accepted)
 	a.incrementLocalVersion()
 	a.events.PublishMembersChanged(ctx, a.memberAddresses(), 1, nil)
@@ -409,7 +410,15 @@ func (a *NodeActor) handleGossip(ctx vivid.ActorContext, m *GossipMessage) {
 			}
 		}
 	}
-	if a.clusterView.MergeFromWithOptions(m.View, a.getMergeOptions()) {
+	changed := a.clusterView.MergeFromWithOptions(m.View, a.getMergeOptions())
+	// 合并可能刚刚（重新）加入了发送方，或以其自报的 LastSeen 覆盖了本地记录；该值由对方在创建时写入，早已陈旧。
+	// 直接收到其消息即表明此刻可达，否则下一次故障检测会立刻将其移除，而其下一条 Gossip 又将其加回，如此往复。
+	if sender != nil {
+		if member := a.clusterView.MemberByAddress(sender.GetAddress()); member != nil {
+			member.LastSeen = time.Now().UnixNano()
+		}
+	}
+	if changed {
 		a.events.PublishLeaderIfChanged(ctx, a.clusterView, a.nodeState.Address, a.quorumCalc.SatisfiesQuorum(a.clusterView))
 		a.broadcastViewOnce(ctx)
 	}
